@@ -4,7 +4,8 @@ F = "src/query/test_function.rs"
 UNITS = [
     Unit(name="TestFunction::apply", file=F, impl="impl TestFunction", fn="apply", order=50, serves=["C10"],
          requires=[("wf", "wf_fn(*self)"), ("cur", "is_cur(state)")],
-         ensures=[("rel", "fn_rel(*self, state, r)")]),
+         ensures=[("rel", "fn_rel(*self, state, r)")],
+         body_prefix="proof { T::from_bool_roundtrip(true); T::from_bool_roundtrip(false); }"),
     Unit(name="TestFunction::process", file=F, impl="impl Query for TestFunction", fn="process", order=50,
          trait_method=True, serves=["C10"],
          impl_extra="""
@@ -23,8 +24,7 @@ UNITS = [
     Unit(name="custom", file=F, fn="custom", order=51, status="assumed", serves=["C10"],
          why_assumed="Cow<T> arguments and the data type's extension hook (serde_json-specific set functions: C14 is not applicable)",
          requires=[("cur", "is_cur(state)")],
-         ensures=[("def", "r.root == state.root && r.data == Data::<'a, T>::Value(custom_result::<T>(name@, "
-                         "Seq::new(args@.len(), |i: int| if 0 <= i < args@.len() { arg_denote(args@[i], cur_of(state), state.root) } else { arbitrary() })))")]),
+         ensures=[("def", "r.root == state.root && r.data == Data::<'a, T>::Value(custom_value::<T>(name@, args@, cur_of(state), state.root))")]),
     Unit(name="length", file=F, fn="length", order=51, serves=["C10"],
          shapes=[("Echars", 1)],
          ensures=[
@@ -32,7 +32,7 @@ UNITS = [
              ("shape", "!(r.data is Refs)"),
              ("value", "!(state.data is Refs) ==> denote(r.data) == (match data_value(state.data) { Some(v) => length_of(v), None => None })"),
          ],
-         closures={1: Cl(expect="v.chars().count()", ret="(s: State<T>)",
+         closures={1: Cl(expect="State::nothing(state.root)", ret="(s: State<T>)",
                          ensures=[("def", "s.root == state.root && !(s.data is Refs) && denote(s.data) == length_of(*item)")])}),
     Unit(name="count", file=F, fn="count", order=51, serves=["C10"],
          ensures=[("def", "r.root == state.root && r.data == Data::<T>::Value(T::from_i64_spec(data_count(state.data) as i64))")],
